@@ -22,9 +22,11 @@ def addfile(id,prop,status,oracle,what,relax=None,commit=None,also=None):
     if commit: e["commit"]=resolve(commit)
     if also: e["also"]=also
     F.append(e)
-addfile("KF2","C16","open","open-appends-although-root-exists",
-    "opening (index absent) a tape whose last record is cut inside its content: the rebuild returns 'unexpected EOF', Initialize treats that like an empty tape, appends a new root record although a root exists and leaves an index that holds only that root",
-    relax="torn-content-open")
+import shutil
+if os.path.exists("/verif/findings/KF2.json"): shutil.move("/verif/findings/KF2.json","/verif/findings/F34.json")
+addfile("F34","C16","fixed","open-appends-although-root-exists",
+    "(was KF2) opening (index absent) a tape whose last record is cut inside its content: the rebuild returned 'unexpected EOF', Initialize treated that like an empty tape, appended a new root record although a root existed and left an index that held only that root",
+    commit="opening a tape with an incomplete last record no longer adds a second root")
 addfile("KF4","C16","open","write-after-open-fails",
     "after opening a tape whose tail is cut off the 512-byte grid (or inside a record), later writes are appended directly behind the torn bytes: they are never indexed (the call fails with not-exist or the entry is lost on rebuild)",
     relax="torn-tail-append")
@@ -58,3 +60,6 @@ addfile("KF7","C05","open","rejected-call-appends",
 add("F33","C06","fixed","torn-entry-returns-wrong-data","tape cut exactly where the content of a zstandard-compressed content update starts: the header was indexed, and restoring the entry returned an empty file WITHOUT an error (zstandard treats the empty stream as valid; nothing compared the restored length with the recorded size)",
     ops=[{"k":"writefile","p":"/b","d":D(0,1)},{"k":"chtimes","p":"/b","n":394800504,"t1":1016816504,"t2":1140504761},{"k":"writefile","p":"/b","d":D(1,2,"rand")},{"k":"writefile","p":"/b","d":D(1,3)}],
     cfg_=cfg(comp="zstandard"), params={"cut":10240,"enumerate":0}, commit="restoring a record that was cut short reports an error")
+addfile("F35","C11","fixed","data-race",
+    "two goroutines using one open file: Sync/Close replaced the file's info struct under the lock while Write/Read/Truncate/... looked at f.info.IsDir() before taking it (race detector: write in syncWithoutLocking, read in File.Write); found when the free-running -race mode started to honour shared handles",
+    commit="a file shared by several goroutines no longer has a data race")
